@@ -140,6 +140,8 @@ def run(prog: Program, res: Result, tier: str) -> None:
 KF = "sigpyproc/core/kernels.py"
 SF = "sigpyproc/core/stats.py"
 MUTANTS = [
+    {"id": "c14-revert-F47", "file": "sigpyproc/core/kernels.py", "expect": "C14.R3",
+     "old": "    x_sq_sum = mf * (mf - 1) * (2 * mf - 1) / 6\n", "new": "    x_sq_sum = m * (m - 1) * (2 * m - 1) / 6\n"},
     {"id": "c14-ds1d-int-div", "file": KF, "expect": "C14.R1",
      "old": "        result[isamp] = temp / factor\n", "new": "        result[isamp] = temp // factor\n"},
     {"id": "c14-ds1d-start", "file": KF, "expect": "C14.R1",
